@@ -75,6 +75,9 @@ func verifFamily(f *fsmAddressFamily) VerifFamily {
 	return vf
 }
 
+// VerifFSMListLocked is the state name VerifPeerFSMs reports when the peer's FSM list is locked.
+const VerifFSMListLocked = "<fsm list locked at quiescence>"
+
 // VerifPeerFSMs lists the FSMs of a peer in creation order. Call at quiescence.
 func VerifPeerFSMs(b BGPServer, v *vrf.VRF, ip *bnet.IP) []VerifFSM {
 	srv, ok := b.(*bgpServer)
@@ -85,7 +88,10 @@ func VerifPeerFSMs(b BGPServer, v *vrf.VRF, ip *bnet.IP) []VerifFSM {
 	if p == nil {
 		return nil
 	}
-	p.fsmsMu.Lock()
+	// the caller runs at quiescence: if the list's lock is held now, its holder is blocked for good
+	if !p.fsmsMu.TryLock() {
+		return []VerifFSM{{State: VerifFSMListLocked}}
+	}
 	fsms := append([]*FSM(nil), p.fsms...)
 	p.fsmsMu.Unlock()
 	out := make([]VerifFSM, 0, len(fsms))
